@@ -2243,7 +2243,8 @@ impl Interp {
 // `x-w2d s-topic <name> <participant> <topic name> [topic qos]`, `x-w2d s-writer <name> <publisher> <topic> [qos]`,
 // `x-w2d s-reader <name> <subscriber> <topic|cft> [qos]`, `x-w2d s-write <writer> <id> <string>`,
 // `x-w2d s-dispose <writer> <id>`, `x-w2d s-take <reader>` : the same as topic/writer/reader/write/dispose/take for the type
-//        `KeyedStr {#[key] id: i32, name: String}` (string token `%e` = empty string). The topic is entered in the
+//        `KeyedStr {#[key] id: i32, name: String}` (string token `%e` = empty string, `\s` = a blank; `x-w2d s-cft` = `cft` with
+//        the same escape in the parameters and the expression). The topic is entered in the
 //        entity table (so `cft`, `delete`, `handle` work on it); writers/readers of this type live in a table of their own.
 #[derive(Clone, Debug, PartialEq, DdsType)]
 struct KeyedStr {
@@ -2255,11 +2256,18 @@ impl TT for KeyedStr {
     const KEYED: bool = true;
     const TYPE_NAME: &'static str = "KeyedStr";
     fn make(id: i32, v: &str) -> Result<Self, String> {
-        Ok(KeyedStr { id, name: if v == "%e" { String::new() } else { v.to_string() } })
+        Ok(KeyedStr { id, name: if v == "%e" { String::new() } else { w2d_unesc(v) } })
     }
     fn show(&self) -> String {
-        format!("{}:{}", self.id, if self.name.is_empty() { "%e" } else { self.name.as_str() })
+        format!("{}:{}", self.id, if self.name.is_empty() { "%e".to_string() } else { w2d_esc(&self.name) })
     }
+}
+/// `\s` stands for a blank inside string values, filter parameters and filter expressions (op lines are blank-separated)
+fn w2d_unesc(s: &str) -> String {
+    s.replace("\\s", " ")
+}
+fn w2d_esc(s: &str) -> String {
+    s.replace(' ', "\\s")
 }
 #[derive(Clone)]
 enum SEnt {
@@ -2312,6 +2320,26 @@ impl Interp {
                 });
                 sim::settle().map_err(Fail::Stop)?;
                 Ok(format!("ok {n}"))
+            }
+            "s-cft" => {
+                // `x-w2d s-cft <name> <participant> <topic> <cft_name> <params|-> <expression...>`: the stock `cft` with `\s` = blank
+                // inside the parameters and the expression (so that values with leading / trailing blanks can be written)
+                if args.len() < 6 {
+                    return Err("usage: x-w2d s-cft <name> <participant> <topic> <cft_name> <params|-> <expression...>".into());
+                }
+                let (p, _) = self.participant(args[1])?;
+                let (t, ty) = self.topic(args[2])?;
+                let cft_name = args[3].to_string();
+                let params: Vec<String> = if args[4] == "-" { vec![] } else { args[4].split(',').map(w2d_unesc).collect() };
+                let expr = w2d_unesc(&args[5..].join(" "));
+                let r = blk(async move { p.create_contentfilteredtopic(&cft_name, &t, expr, params).await })?;
+                Ok(match r {
+                    Ok(x) => {
+                        self.ents.insert(args[0].to_string(), Ent::Cft(x, ty));
+                        "ok".into()
+                    }
+                    Err(e) => err_name(&e),
+                })
             }
             "s-topic" => {
                 let (plain, kv) = split_kv(args);
